@@ -340,12 +340,14 @@ fn runner(t: usize, ctl: Arc<Ctl>, sh: Arc<Shared>, prog: Vec<Op>) {
                     let w = matches!(op, Op::AcqW | Op::TmAcqW);
                     let via_cache = matches!(op, Op::TmAcqR | Op::TmAcqW);
                     upd(&ctl, &mut |r| { r.slack = [0, 0]; r.slack[w as usize] = 1; r.freed_now.clear(); });
+                    let hits0 = { let st = sh.tm.thread_cache_stats(); st.reader_cache_hits + st.writer_cache_hits };
                     let got: Option<Tok> = if w {
                         (if via_cache { sh.tm.acquire_writer_token() } else { vm.acquire_writer_token() }).ok().map(Tok::W)
                     } else {
                         (if via_cache { sh.tm.acquire_reader_token() } else { vm.acquire_reader_token() }).ok().map(Tok::R)
                     };
-                    if via_cache { cached[w as usize] = None; }   // get_*_token always empties the slot
+                    let hits1 = { let st = sh.tm.thread_cache_stats(); st.reader_cache_hits + st.writer_cache_hits };
+                    if via_cache && hits1 > hits0 { cached[w as usize] = None; }   // the cached token was handed out
                     let c2 = cached;
                     match got {
                         Some(tok) => {
@@ -690,19 +692,21 @@ fn run_seq(ops: &[SOp]) -> SeqOut {
                             let mg = mgrs[m].as_ref().unwrap();
                             if let Mgr::Vm(_) = mg { via = false; }
                             let slot = w as usize;
-                            let mut from_cache: Option<TokInfo> = None;
+                            let hits0 = { let st = helper.thread_cache_stats(); st.reader_cache_hits + st.writer_cache_hits };
                             let got: Option<Tok> = match (mg, via, w) {
-                                (Mgr::Tm(t), true, false) => { from_cache = cached[slot].take(); t.acquire_reader_token().ok().map(Tok::R) }
-                                (Mgr::Tm(t), true, true) => { from_cache = cached[slot].take(); t.acquire_writer_token().ok().map(Tok::W) }
+                                (Mgr::Tm(t), true, false) => t.acquire_reader_token().ok().map(Tok::R),
+                                (Mgr::Tm(t), true, true) => t.acquire_writer_token().ok().map(Tok::W),
                                 (_, _, false) => mg.vm().acquire_reader_token().ok().map(Tok::R),
                                 (_, _, true) => mg.vm().acquire_writer_token().ok().map(Tok::W),
                             };
+                            let hits1 = { let st = helper.thread_cache_stats(); st.reader_cache_hits + st.writer_cache_hits };
+                            // a cache hit hands out the cached token (whoever issued it)
+                            let from_cache: Option<TokInfo> = if hits1 > hits0 { cached[slot].take() } else { None };
                             match got {
                                 Some(tok) => {
                                     let mut inf = tok.info(m);
                                     if let Some(c) = from_cache {
-                                        // a cache hit hands out the cached token: it was issued by c.issuer
-                                        if c.version == inf.version && c.kind == inf.kind { inf.issuer = c.issuer; }
+                                        inf.issuer = c.issuer;
                                         if c.issuer != m { out.cross_shadow = true; }
                                     }
                                     inf.handed_by = m;
@@ -752,7 +756,7 @@ fn run_seq(ops: &[SOp]) -> SeqOut {
             let d = verif_sched::dangling_releases() - d0;
             if d > seen_dangling {
                 seen_dangling = d;
-                out.failures.push((Some("token_outlives_manager"), format!("(iv) step {}: a token was released after the manager that issued it had been destroyed (the release dereferences a dangling pointer)", step)));
+                out.failures.push((None, format!("(iv) step {}: a token was released after the manager that issued it had been destroyed (the release dereferences a dangling pointer)", step)));
             }
             // (i), (iii) per live manager, at this operation boundary
             for (m, mg) in mgrs.iter().enumerate() {
@@ -772,7 +776,8 @@ fn run_seq(ops: &[SOp]) -> SeqOut {
                 }
                 for c in cached.iter().flatten() { if c.kind < 2 { maybe[c.kind as usize] += 1; } }
                 let cross = held.iter().any(|(_, h)| h.handed_by == m && h.issuer != m);
-                let cls = if cross { Some("cache_crosses_managers") } else { None };
+                let cls: Option<&'static str> = None;
+                let _ = cross;
                 if levels[m] == 3 && handed[1] > 1 {
                     out.failures.push((cls, format!("(i) step {}: manager {} (OneWriteMultiRead) has handed out {} writer tokens that are all still held", step, m, handed[1])));
                 }
@@ -781,7 +786,7 @@ fn run_seq(ops: &[SOp]) -> SeqOut {
                         out.failures.push((cls, format!("(iii) step {}: manager {} reports {} = {} but {} tokens handed out by it are held (at most {} more cached)", step, m, name, c, handed[k], maybe[k])));
                     }
                 }
-                if step == nops && (ar != 0 || aw != 0) && !out.dangling_shadow {
+                if step == nops && (ar != 0 || aw != 0) {
                     out.failures.push((None, format!("(iii) manager {} at quiescence: active_readers = {}, active_writers = {}", m, ar, aw)));
                 }
             }
@@ -896,7 +901,7 @@ pub fn run(args: &Args) {
     let mut cx = Ctx {
         sum: Summary::new("C16", "real threads parked at schedule hooks before every shared access of acquire/release/try_advance; all schedules with a bounded number of pre-emptions (all schedules for the single-operation races) of fixed 2-3 thread programs at every ConcurrencyLevel, random programs under random schedules, sequential histories over 1-3 managers with cached tokens and manager drops; a concurrent run is non-trivial when it has >= 2 context switches at a level that tracks versions, a sequential one when it has >= 2 managers and >= 5 operations; distinct = distinct (programs, executed schedule)"),
         shards: CoqShards::new(HEADER, 300),
-        coq_budget: if args.thorough { 6000 } else { 1400 },
+        coq_budget: if args.thorough { 6000 } else { 1200 },
         rng: Rng::new(args.seed),
         runs: 0,
     };
@@ -927,7 +932,7 @@ pub fn run(args: &Args) {
         }
     }
     // 2. enumerated schedules of fixed programs at every level
-    let per_prog = if args.thorough { 60000 } else { 700 };
+    let per_prog = if args.thorough { 60000 } else { 500 };
     for (name, progs, bound) in fixed_programs() {
         for level in [3u8, 4, 2, 1, 0] {
             let bound = match (bound, args.thorough) { (Some(b), true) => Some(b + 1), (b, _) => b };
@@ -937,7 +942,7 @@ pub fn run(args: &Args) {
     }
     cx.sum.sample(json!({"kind": "enumerated schedules", "programs": fixed_programs().iter().map(|x| x.0).collect::<Vec<_>>()}));
     // 3. random programs, random schedules
-    let nrand = if args.thorough { 60000 } else { 2500 };
+    let nrand = if args.thorough { 60000 } else { 2000 };
     for k in 0..nrand {
         let mut r = Rng::new(cx.rng.next());
         let level = *r.pick(&[3u8, 3, 3, 4, 4, 2, 1, 0]);
@@ -950,7 +955,7 @@ pub fn run(args: &Args) {
         if k < 3 { cx.sum.sample(json!({"kind": "random", "case": conc_case_json(level, &progs, &o.sched)})); }
     }
     // 4. sequential histories over several managers
-    let nseq = if args.thorough { 40000 } else { 2000 };
+    let nseq = if args.thorough { 40000 } else { 1500 };
     for k in 0..nseq {
         let mut r = Rng::new(cx.rng.next());
         let ops = rand_seq(&mut r);
